@@ -23,6 +23,7 @@ type c07Case struct {
 	K       int    `json:"k"`
 	Readers int    `json:"readers"`
 	Class   string `json:"class"`
+	Roc0    []int  `json:"roc0"` // roll-over count the sequencer starts with (8 bytes, big endian); counts are reported relative to it
 }
 
 type hookEv struct {
@@ -76,10 +77,30 @@ func runC07(raw json.RawMessage, w *Writer) {
 	}
 	defer func() { rtp.VerifSeqHook = nil }()
 	var seq rtp.Sequencer
-	if c.Kind == "random" {
+	var roc0 uint64
+	for _, b := range c.Roc0 {
+		roc0 = roc0<<8 | uint64(b)
+	}
+	switch {
+	case c.Kind == "random":
 		seq = rtp.NewRandomSequencer()
-	} else {
+	case roc0 != 0:
+		seq = rtp.VerifNewSequencerAt(uint16(c.Start), roc0)
+		if seq == nil {
+			// the verification constructor does not fit this implementation: nothing to run
+			w.Emit(Ev{"ev": "reset", "class": c.Class, "kind": c.Kind, "start": c.Start, "g": c.G, "k": c.K})
+			w.Emit(Ev{"ev": "unavailable"})
+			return
+		}
+	default:
 		seq = rtp.NewFixedSequencer(uint16(c.Start))
+	}
+	rel := func(roc uint64) int {
+		d := roc - roc0 // modulo 2^64
+		if d > 1<<30 {
+			return 1 << 30
+		}
+		return int(d)
 	}
 	calls := make([][]callEv, c.G)
 	reads := make([][]readEv, c.Readers)
@@ -142,14 +163,10 @@ func runC07(raw json.RawMessage, w *Writer) {
 	// hook events are put in that order; the order in which the hook calls happened to arrive is not used
 	// (a lock-free implementation may report them out of order and still be linearizable).
 	sort.SliceStable(hooks, func(i, j int) bool {
-		return hooks[i].roc*65536+uint64(hooks[i].v) < hooks[j].roc*65536+uint64(hooks[j].v)
+		return (hooks[i].roc-roc0)*65536+uint64(hooks[i].v) < (hooks[j].roc-roc0)*65536+uint64(hooks[j].v)
 	})
 	for _, h := range hooks {
-		roc := int(h.roc)
-		if h.roc > 1<<30 {
-			roc = 1 << 30
-		}
-		w.Emit(Ev{"ev": "next", "c": int(h.c), "v": int(h.v), "roc": roc})
+		w.Emit(Ev{"ev": "next", "c": int(h.c), "v": int(h.v), "roc": rel(h.roc)})
 	}
 	// witness: a one-to-one assignment of client returns to hook events such that every call's
 	// value was issued inside its own window. Values repeat after a wrap and a descheduled caller's
@@ -261,7 +278,7 @@ func runC07(raw json.RawMessage, w *Writer) {
 		}
 		// hi: (first 1-based k with all[k-1].inv > ret) - 1
 		hi := sort.Search(n, func(i int) bool { return preMaxInv[i+1] > ret })
-		w.Emit(Ev{"ev": "read", "g": g, "inv": int(inv), "ret": int(ret), "roc": int(roc), "lo": lo, "hi": hi})
+		w.Emit(Ev{"ev": "read", "g": g, "inv": int(inv), "ret": int(ret), "roc": rel(roc), "lo": lo, "hi": hi})
 	}
 	for r := range reads {
 		for _, re := range reads[r] {
